@@ -228,6 +228,10 @@ def curated():
     out.append(D("nest-3in2", [f3, d2], nest(cross(["f"], ["f"]), cross(["d"], ["d"])), ["nest"]))
     out.append(D("nest-inner-atmost", [c2, d2, fac("g", ["u", "v"])], nest(cross(["c"], ["c"]), cross(["d", "g"], ["d"], [["AtMostKInARow", 1, "g", "u"]])), ["nest", "scope-inner", "atmost"]))
     out.append(D("nest-own-atmost", [c2, d2, fac("g", ["u", "v"])], nest(cross(["c"], ["c"]), cross(["d", "g"], ["d"]), [["AtMostKInARow", 1, "g", "u"]]), ["nest", "scope-outer", "atmost"]))
+    # MinimumTrials on the Nest itself that is not a multiple of the inner run length (rounded up), alone and next to constraints whose validation asks for the trial count
+    out.append(D("nest-own-min5", [c2, d2], nest(cross(["c"], ["c"]), cross(["d"], ["d"]), [["MinimumTrials", 5]]), ["nest", "mintrials"]))
+    out.append(D("nest-own-min5-pin", [c2, d2], nest(cross(["c"], ["c"]), cross(["d"], ["d"]), [["MinimumTrials", 5], ["Pin", 0, "d", "x"]]), ["nest", "mintrials", "pin", "scope-outer"]))
+    out.append(D("nest-own-min7-atleast", [c2, d2], nest(cross(["c"], ["c"]), cross(["d"], ["d"]), [["MinimumTrials", 7], ["AtLeastKInARow", 1, "d", "x"]]), ["nest", "mintrials", "atleast", "scope-outer"]))
     out.append(D("nest-outer-uncrossed", [c2, d2, fac("g", ["u", "v"])], nest(cross(["c", "g"], ["c"]), cross(["d"], ["d"])), ["nest"]))
     # combinators over blocks that contain factors the library handles internally: an implied derived factor (neither crossed nor constrained),
     # a weighted factor outside the crossing (replaced by hidden factors), and a constraint on such a weighted factor
